@@ -379,47 +379,27 @@ func matchJSONSchema(_ Context, doc bsonkit.Doc, name, _ string, v interface{}) 
 	return nil
 }
 
-func matchAll(_ Context, doc bsonkit.Doc, name, path string, v interface{}) error {
-	return matchUnwind(doc, path, false, true, func(field interface{}) error {
-		// get array
-		array, ok := v.(bson.A)
-		if !ok {
-			return fmt.Errorf("%s: expected array", name)
-		}
+func matchAll(ctx Context, doc bsonkit.Doc, name, path string, v interface{}) error {
+	// get array
+	array, ok := v.(bson.A)
+	if !ok {
+		return fmt.Errorf("%s: expected array", name)
+	}
 
-		// check array
-		if len(array) == 0 {
-			return ErrNotMatched
-		}
+	// check array
+	if len(array) == 0 {
+		return ErrNotMatched
+	}
 
-		// check if array contains array
-		if arr, ok := field.(bson.A); ok {
-			matches := true
-			for _, value := range array {
-				ok := false
-				for _, element := range arr {
-					if bsonkit.Compare(value, element) == 0 {
-						ok = true
-					}
-				}
-				if !ok {
-					matches = false
-				}
-			}
-			if matches {
-				return nil
-			}
+	// all items must match as an equality condition
+	for _, item := range array {
+		err := matchComp(ctx, doc, "$eq", path, item)
+		if err != nil {
+			return err
 		}
+	}
 
-		// check if field is in array
-		for _, item := range array {
-			if bsonkit.Compare(field, item) != 0 {
-				return ErrNotMatched
-			}
-		}
-
-		return nil
-	})
+	return nil
 }
 
 func matchSize(_ Context, doc bsonkit.Doc, name, path string, v interface{}) error {
